@@ -369,6 +369,17 @@ def step (s : State) (toks : List String) : State × String :=
     | some off, some n, some bn =>
       if off > 1000000 ∨ n = 0 ∨ n > 4096 then (s, "bad-op") else (s, showOutcome (genNary bn (some 0) n))
     | _, _, _ => (s, "bad-op")
+  -- `zroot <mode> <n> <N> <root | x>`: a root asked of a roster whose identities' deprecated ID field is unset (0), was lost
+  -- in the TOML form (1) or is foreign (2): looked up by its key — the same tree as `nary`, no tree for a stranger
+  | ["zroot", mode, n, bn, r] =>
+    match mode.toNat?, n.toNat?, bn.toNat? with
+    | some mode, some n, some bn =>
+      if mode > 2 ∨ n = 0 ∨ n > 4096 then (s, "bad-op") else
+      if r = "x" then (s, showOutcome (genNaryKeys bn (List.range n) (some (n + 1000)))) else
+      match r.toNat? with
+      | some r => if r < n then (s, showOutcome (genNaryKeys bn (List.range n) (some r))) else (s, "bad-op")
+      | none => (s, "bad-op")
+    | _, _, _ => (s, "bad-op")
   | ["zbig", off, bn, nodes, hosts] =>
     match off.toNat?, bn.toNat?, nodes.toNat?, Util.natList hosts with
     | some off, some bn, some nodes, some hosts =>
